@@ -31,6 +31,9 @@ TVar == [k |-> "tvar"]
 \* user classes that can be iterated: Cd is its own iterator (__iter__ returns the class itself, __next__ gives int),
 \* Ws hands out an Iterator[str]
 TCd == [k |-> "Cd"]   TWs == [k |-> "Ws"]
+\* a class with two bases: Target(Left, Right), Left(Root).  Root and Right both declare `tag` and `who` with different
+\* types; Python's method resolution order (Target, Left, Root, Right) finds Root's first - depth first, left to right
+TMI == [k |-> "Target"]
 Yields(t) == IF t.k = "Cd" THEN [k |-> "int"] ELSE [k |-> "str"]
 \* a declared name for a type (TypeAlias) and an optional: both are transparent for what can be done with the value
 TAlias(name, t) == [k |-> "alias", name |-> name, t |-> t]
@@ -86,7 +89,7 @@ Vars == { R("n", TInt), R("x", TFloat), R("b", TBool), R("s", TStr),
           R("xn", TOptN(TList(TInt))), R("cn", TOptN(TC)), R("ln", TOptN(TList(TC))),
           R("gi", TG(TInt)), R("gs", TG(TStr)), R("ig", TIG), R("ig2", TIG2), R("cd", TCd), R("wz", TWs),
           \* parameters that carry the names of library functions: a declaration in scope is found before the library
-          R("id", TInt), R("max", TFloat), R("hash", TStr), R("iter", TList(TInt)), R("min", TC) }
+          R("mi", TMI), R("id", TInt), R("max", TFloat), R("hash", TStr), R("iter", TList(TInt)), R("min", TC) }
 \* members of G: fields and methods whose declared types hold the type variable at depth 0, 1 and 2, under an optional
 GFields == { <<"v", TVar>>, <<"vs", TList(TVar)>>, <<"rows", TList(TList(TVar))>>, <<"idx", TDict(TList(TVar))>>,
              <<"opt", TOpt(TVar)>>, <<"spare", TOpt(TList(TVar))>>, <<"pair", TTuple(TVar, TList(TVar))>> }
@@ -113,6 +116,9 @@ Step(S0) ==
   \cup {R(W(e, 16) \o ".n", TInt) : e \in {z \in S : z.ref /\ z.ty.k = "C"}}
   \cup {R(W(e, 16) \o ".m()", TStr) : e \in {z \in S : z.ref /\ z.ty.k = "C"}}
   \cup {R(W(e, 16) \o ".p", TList(TInt)) : e \in {z \in S : z.ref /\ z.ty.k = "C"}}
+  \cup {R(W(e, 16) \o ".tag", TStr) : e \in {z \in S : z.ref /\ z.ty.k = "Target"}}
+  \cup {R(W(e, 16) \o ".who()", TStr) : e \in {z \in S : z.ref /\ z.ty.k = "Target"}}
+  \cup {R(W(e, 16) \o ".only()", TFloat) : e \in {z \in S : z.ref /\ z.ty.k = "Target"}}
   \cup {R(W(e, 16) \o ".value", TInt) : e \in {z \in S : z.ref /\ z.ty.k = "E"}}
   \cup {R(W(e, 16) \o "." \o f[1], Subst(f[2], e.ty.a)) : e \in {z \in S : z.ref /\ z.ty.k \in {"G", "IG", "IG2"}}, f \in GFields}
   \cup {R(W(e, 16) \o "." \o f[1] \o "()", Subst(f[2], e.ty.a)) : e \in {z \in S : z.ref /\ z.ty.k \in {"G", "IG", "IG2"}}, f \in GMethods}
@@ -155,7 +161,7 @@ Determined(t) == CASE t.k = "list" -> Determined(t.e) [] t.k = "dict" -> Determi
                    [] t.k = "tuple" -> Determined(t.a) /\ Determined(t.b)
                    [] t.k \in {"alias", "opt", "optn"} -> Determined(t.t)
                    [] t.k \in {"G", "IG", "IG2"} -> Determined(t.a)
-                   [] OTHER -> t.k \in {"int", "float", "bool", "str", "C", "E", "Cd", "Ws"}
+                   [] OTHER -> t.k \in {"int", "float", "bool", "str", "C", "E", "Cd", "Ws", "Target"}
 Total == \A e \in Universe : Determined(e.ty)
 
 Emit == \A e \in Universe : PrintT("CASE " \o ToJson([text |-> e.text, type |-> Describe(e.ty), rtype |-> RunTime(e.ty)]))
